@@ -116,3 +116,55 @@ Qed.
 Example rt_scan_example :
   rt_scan 0%nat [Fin 2; Fin 4; Fin 1] [0; 2]%nat [Fin 2; Fin 5] PInf None = (Fin 4, Some 2%nat).
 Proof. vm_compute. reflexivity. Qed.
+
+(* ---------------------------------------------------------------- instances of the hypotheses *)
+
+Definition ex_cost (i j : nat) : option Z :=
+  match i, j with
+  | O, O => Some 1 | O, S O => Some 3
+  | S O, S O => Some 2
+  | S (S O), O => Some 9 | S (S O), S O => Some 5
+  | _, _ => None
+  end.
+Definition ex_x (i : nat) : option nat := match i with 0 => Some 0 | 1 => Some 1 | _ => None end%nat.
+Definition ex_v (j : nat) : Z := 0.
+
+Lemma ex_slack : SlackV ex_cost ex_v ex_x.
+Proof.
+  intros i j Hj. destruct i as [|[|i]]; cbn in Hj; inversion Hj; subst; eexists; (split; [reflexivity|]);
+    intros j' c' H; destruct j' as [|[|j']]; cbn in H; inversion H; unfold red, ex_v; lia.
+Qed.
+Lemma ex_inj : injective ex_x.
+Proof.
+  intros i i' j H H'. destruct i as [|[|i]], i' as [|[|i']]; cbn in H, H'; congruence.
+Qed.
+
+(* reduction transfer on row 0 (assigned to column 0, other candidate column 1 at reduced cost 3) *)
+Example reduction_transfer_fixed_example :
+  injective ex_x /\ SlackV ex_cost ex_v ex_x /\ ex_x 0%nat = Some 0%nat /\ ex_cost 0%nat 0%nat = Some 1 /\
+  (forall j' c', ex_cost 0%nat j' = Some c' -> j' <> 0%nat -> 3 <= red ex_v j' c') /\
+  red ex_v 0%nat 1 <= 3 /\
+  SlackV ex_cost (updv ex_v 0%nat (3 - red ex_v 0%nat 1)) ex_x.
+Proof.
+  assert (B : forall j' c', ex_cost 0%nat j' = Some c' -> j' <> 0%nat -> 3 <= red ex_v j' c').
+  { intros j' c' H N. destruct j' as [|[|j']]; cbn in H; inversion H; [congruence|]. unfold red, ex_v; lia. }
+  repeat split; auto using ex_inj, ex_slack; [unfold red, ex_v; lia|].
+  apply (reduction_transfer_fixed ex_cost ex_v ex_x 0%nat 0%nat 1 3); auto using ex_inj, ex_slack.
+  unfold red, ex_v; lia.
+Qed.
+
+(* augmenting row reduction for the free row 2: best column 1 (reduced cost 5), second best 9; row 1 is displaced *)
+Definition ex_x' (i : nat) : option nat := match i with 0 => Some 0 | 2 => Some 1 | _ => None end%nat.
+Example arr_step_strict_example :
+  SlackV ex_cost ex_v ex_x /\ ex_x 2%nat = None /\ ex_cost 2%nat 1%nat = Some 5 /\
+  (forall j' c', ex_cost 2%nat j' = Some c' -> j' <> 1%nat -> 9 <= red ex_v j' c') /\
+  red ex_v 1%nat 5 <= 9 /\
+  SlackV ex_cost (updv ex_v 1%nat (9 - red ex_v 1%nat 5)) ex_x'.
+Proof.
+  assert (B : forall j' c', ex_cost 2%nat j' = Some c' -> j' <> 1%nat -> 9 <= red ex_v j' c').
+  { intros j' c' H N. destruct j' as [|[|j']]; cbn in H; inversion H; [|congruence]. unfold red, ex_v; lia. }
+  repeat split; auto using ex_slack; [unfold red, ex_v; lia|].
+  apply (arr_step_strict ex_cost ex_v ex_x 2%nat 1%nat 5 9); auto using ex_slack.
+  all: try (unfold red, ex_v; lia).
+  intros k Hk. destruct k as [|[|[|k]]]; cbn; [left; split; [reflexivity|discriminate] | right; auto | congruence | left; split; [reflexivity|discriminate]].
+Qed.
